@@ -74,17 +74,8 @@ pub fn execute_n(sc: &Scenario, loss: LossMode, slack: u64, keep_log: bool) -> (
     (viols, out)
 }
 
-impl Check for ModelCheck {
-    fn id(&self) -> &'static str {
-        self.id
-    }
-    fn runs(&self, tier: Tier) -> u64 {
-        match tier {
-            Tier::Quick => self.quick_runs,
-            Tier::Thorough => self.thorough_runs,
-        }
-    }
-    fn generate(&self, run_seed: u64, _index: u64, tier: Tier) -> Case {
+impl ModelCheck {
+    fn gen_sc(&self, run_seed: u64, tier: Tier) -> (Scenario, &'static str) {
         let mut krng = Rng::sub(run_seed, "knobs");
         let mut knobs = knobs_for(&mut krng, run_seed);
         let mut prng = Rng::sub(run_seed, "profile");
@@ -113,16 +104,49 @@ impl Check for ModelCheck {
         let sc = g.scenario(knobs);
         if ring_n {
             let mut srng = Rng::sub(run_seed, "segmentation");
-            let sc = to_ring_n(&sc, &mut srng, SegStyle::Mixed, 10);
-            return Case {
-                kind: "N".into(),
-                data: json!({"scenario": sc.to_json()}),
-            };
+            return (to_ring_n(&sc, &mut srng, SegStyle::Mixed, 10), "N");
         }
+        (sc, "H")
+    }
+
+    fn exec_sc(&self, sc: &Scenario, kind: &str, keep_log: bool) -> Outcome {
+        let slack = if self.id == "C05" { 0 } else { 1 };
+        let (viols, mut out) = if kind == "N" {
+            execute_n(sc, LossMode::Strict, slack, keep_log)
+        } else {
+            execute_h(sc, LossMode::Strict, slack, keep_log)
+        };
+        out.count(if kind == "N" { "ring_N_runs" } else { "ring_H_runs" }, 1);
+        let claims = self.claims;
+        // debugging / defect confirmation: claim exactly one signature, whichever property it belongs to
+        match std::env::var("VERIF_CLAIM_SIG") {
+            Ok(sig) => out.absorb(viols, &|v| v.signature() == sig),
+            Err(_) => out.absorb(viols, &|v| claims.contains(&v.prop)),
+        }
+        out
+    }
+}
+
+impl Check for ModelCheck {
+    fn id(&self) -> &'static str {
+        self.id
+    }
+    fn runs(&self, tier: Tier) -> u64 {
+        match tier {
+            Tier::Quick => self.quick_runs,
+            Tier::Thorough => self.thorough_runs,
+        }
+    }
+    fn generate(&self, run_seed: u64, _index: u64, tier: Tier) -> Case {
+        let (sc, kind) = self.gen_sc(run_seed, tier);
         Case {
-            kind: "H".into(),
+            kind: kind.into(),
             data: json!({"scenario": sc.to_json()}),
         }
+    }
+    fn run_fast(&self, run_seed: u64, _index: u64, tier: Tier) -> Option<Outcome> {
+        let (sc, kind) = self.gen_sc(run_seed, tier);
+        Some(self.exec_sc(&sc, kind, false))
     }
     fn execute(&self, case: &Case) -> Outcome {
         let sc = match Scenario::from_json(&case.data["scenario"]) {
@@ -133,20 +157,7 @@ impl Check for ModelCheck {
             }
         };
         let keep_log = case.data.get("log").is_some();
-        let slack = if self.id == "C05" { 0 } else { 1 };
-        let (viols, mut out) = if case.kind == "N" {
-            execute_n(&sc, LossMode::Strict, slack, keep_log)
-        } else {
-            execute_h(&sc, LossMode::Strict, slack, keep_log)
-        };
-        out.count(if case.kind == "N" { "ring_N_runs" } else { "ring_H_runs" }, 1);
-        let claims = self.claims;
-        // debugging / defect confirmation: claim exactly one signature, whichever property it belongs to
-        match std::env::var("VERIF_CLAIM_SIG") {
-            Ok(sig) => out.absorb(viols, &|v| v.signature() == sig),
-            Err(_) => out.absorb(viols, &|v| claims.contains(&v.prop)),
-        }
-        out
+        self.exec_sc(&sc, if case.kind == "N" { "N" } else { "H" }, keep_log)
     }
     fn rule(&self) -> String {
         format!(
